@@ -48,10 +48,46 @@ func selectorOffset(sel ssa.Value) (ssa.Value, bool) {
 	if b, ok := sel.(*ssa.BinOp); ok && b.Op == token.SHL {
 		return b.Y, true
 	}
+	// uint64(1 << off) with the shift done in a narrower / platform-sized type: still a selector (checked by selectorWidthProblem)
+	if cv, ok := sel.(*ssa.Convert); ok {
+		if b, ok := cv.X.(*ssa.BinOp); ok && b.Op == token.SHL {
+			return b.Y, true
+		}
+	}
 	if tab, idx, ok := asElemLoad(sel); ok && isGlobal(tab, "bitmap", "Bit") {
 		return idx, true
 	}
 	return nil, false
+}
+
+// selectorWidthProblem: a single-bit selector 1<<off with a 6-bit offset must be computed in a fixed 64-bit type.
+func selectorWidthProblem(sel ssa.Value) string {
+	var sh *ssa.BinOp
+	switch x := sel.(type) {
+	case *ssa.BinOp:
+		if x.Op == token.SHL {
+			sh = x
+		}
+	case *ssa.Convert:
+		if b, ok := x.X.(*ssa.BinOp); ok && b.Op == token.SHL {
+			sh = b
+		}
+	}
+	if sh == nil {
+		return ""
+	}
+	bt, ok := sh.Type().Underlying().(*types.Basic)
+	if !ok {
+		return ""
+	}
+	switch bt.Kind() {
+	case types.Uint64, types.Int64:
+		return ""
+	case types.Int, types.Uint, types.Uintptr:
+		return "the bit selector 1<<off is computed in the platform-sized type " + bt.Name() + ": with 32-bit int (GOARCH=386, arm) offsets 32..63 select nothing"
+	default:
+		return "the bit selector 1<<off is computed in the " + bt.Name() + " type, narrower than the 64-bit word it selects from"
+	}
 }
 
 func bitRefs(w *World, fn *ssa.Function) []BitRef {
@@ -116,6 +152,9 @@ func bitRefs(w *World, fn *ssa.Function) []BitRef {
 							for _, s := range []ssa.Value{a, b} {
 								if off, ok := selectorOffset(s); ok {
 									checkOff(off)
+									if p := selectorWidthProblem(s); p != "" && br.Problem == "" {
+										br.Problem = p
+									}
 								}
 							}
 						}
@@ -143,6 +182,9 @@ func bitRefs(w *World, fn *ssa.Function) []BitRef {
 					if off, ok := selectorOffset(other); ok {
 						checkOff(off)
 						br.Use = b
+						if p := selectorWidthProblem(other); p != "" && br.Problem == "" {
+							br.Problem = p
+						}
 					}
 				case token.SHR:
 					if b.X == ld {
